@@ -128,8 +128,22 @@ type rangeIter struct {
 }
 
 func (f *Frame) execRange(in *ssa.Range, st *State) {
-	f.vals[in] = []Term{f.ctx.fresh("iter", SInt)}
-	f.ctx.eng.iters[f.vals[in][0].S] = &rangeIter{x: f.get(in.X), typ: in.X.Type()}
+	c := f.ctx
+	f.vals[in] = []Term{c.fresh("iter", SInt)}
+	it := &rangeIter{x: f.get(in.X), typ: in.X.Type()}
+	c.eng.iters[f.vals[in][0].S] = it
+	// ghost: the set of keys of this map visited by the iteration starts empty
+	if mt, isMap := in.X.Type().Underlying().(*types.Map); isMap && singleLeaf(mt.Key()) {
+		k := mapKey(in.X.Type()) + "#visited"
+		srt := mapPresentSort(in.X.Type())
+		c.eng.keySorts[k] = srt
+		hv := c.heapGet(st, k, srt)
+		empty := c.fresh("novisited", elemSort(srt))
+		c.n++
+		q := Term{fmt.Sprintf("vk!%d", c.n), mapKeySort(in.X.Type())}
+		c.assertDef(empty, Forall([]Term{q}, Not(Select(empty, q)), []Term{Select(empty, q)}))
+		c.setHeap(st, k, c.define("heap", Store(hv, it.x[0], empty)))
+	}
 }
 
 func (f *Frame) execNext(in *ssa.Next, st *State) {
@@ -166,6 +180,20 @@ func (f *Frame) execNext(in *ssa.Next, st *State) {
 			k := mapKey(mt)
 			hp := c.heapGet(st, k+"#p", mapPresentSort(mt))
 			st.assume(c, Implies(ok, Select(Select(hp, it.x[0]), k1)))
+			// ghost visited set: a key is yielded once, and the iteration ends
+			// only when every present key has been yielded (map not modified
+			// during the iteration is the caller's business: the present set
+			// is read at each step)
+			vk := k + "#visited"
+			c.eng.keySorts[vk] = mapPresentSort(mt)
+			hvis := c.heapGet(st, vk, mapPresentSort(mt))
+			vis := Select(hvis, it.x[0])
+			st.assume(c, Implies(ok, Not(Select(vis, k1))))
+			c.n++
+			q := Term{fmt.Sprintf("vk!%d", c.n), mapKeySort(mt)}
+			pres := Select(hp, it.x[0])
+			st.assume(c, Implies(Not(ok), Forall([]Term{q}, Implies(Select(pres, q), Select(vis, q)), []Term{Select(pres, q)})))
+			c.setHeap(st, vk, c.define("heap", Store(hvis, it.x[0], Store(vis, k1, Or(ok, Select(vis, k1))))))
 			m := mt.Underlying().(*types.Map)
 			if singleLeaf(m.Elem()) && len(val) == 1 {
 				hv := c.heapGet(st, k, mapSort(mt))
